@@ -172,7 +172,22 @@ func main() {
 	if *wall > 0 {
 		wallLimit = *wall
 	}
-	outs := fanout(st, prop, seed, thorough, *workers, random, wallLimit)
+	isoN := 320
+	if thorough {
+		isoN = 6000
+	}
+	if cfg.Engine != "pipesim" || rawMode {
+		isoN = 0
+	}
+	isoOuts, isoFound := isolated(st, prop, seed, thorough, *workers, isoN)
+	var outs []*driver.WorkerOut
+	if isoFound {
+		// an isolated run already violates the property: the bulk phase would
+		// only add the same verdict (or crash on process-wide library state)
+		outs = isoOuts
+	} else {
+		outs = append(fanout(st, prop, seed, thorough, *workers, random, wallLimit), isoOuts...)
+	}
 	code := report(st, prop, cfg, *tier, seed, outs, start, !*noEvidence)
 	st.cleanup()
 	os.Exit(code)
@@ -401,6 +416,61 @@ func fanout(st *staged, prop string, seed uint64, thorough bool, workers, random
 		die(2, "INFRA: worker trouble (this is not a verdict; details also in %s):\n%s", logf, failed)
 	}
 	return outs
+}
+
+// isolated runs n plans of the scenario's GenIso, each in a process of its own.
+// A process that dies is counted, not fatal: the verdict comes from the runs
+// that completed; if none completes, that is infrastructure trouble.
+func isolated(st *staged, prop string, seed uint64, thorough bool, workers, n int) ([]*driver.WorkerOut, bool) {
+	if n == 0 {
+		return nil, false
+	}
+	outs := make([]*driver.WorkerOut, n)
+	var wg sync.WaitGroup
+	sem := make(chan struct{}, workers)
+	var mu sync.Mutex
+	crashed := 0
+	firstCrash := ""
+	for i := 0; i < n; i++ {
+		wg.Add(1)
+		go func(i int) {
+			defer wg.Done()
+			sem <- struct{}{}
+			defer func() { <-sem }()
+			job := driver.WorkerIn{Prop: prop, Mode: "iso", Seed: seed, Thorough: thorough, Worker: i, Workers: n,
+				ReplayDir: filepath.Join(st.dir, "replays"), Out: filepath.Join(st.dir, fmt.Sprintf("iso-%d.json", i)), Procs: []int{0, 1, 2, 4}[i%4]}
+			wo, outp, code := runWorker(st, job)
+			mu.Lock()
+			defer mu.Unlock()
+			if wo == nil || code != 0 || wo.Infra != "" {
+				crashed++
+				if firstCrash == "" {
+					firstCrash = tail(outp, 25)
+				}
+				return
+			}
+			outs[i] = wo
+		}(i)
+	}
+	wg.Wait()
+	var res []*driver.WorkerOut
+	found := false
+	for _, o := range outs {
+		if o != nil {
+			res = append(res, o)
+			if len(o.Found) > 0 {
+				found = true
+			}
+		}
+	}
+	if crashed > 0 {
+		fmt.Printf("note: %d of %d isolated runs did not complete (first: %s)\n", crashed, n, strings.ReplaceAll(firstCrash, "\n", " | "))
+		if len(res) == 0 {
+			st.cleanup()
+			die(2, "INFRA: no isolated run completed (this is not a verdict):\n%s", firstCrash)
+		}
+	}
+	return res, found
 }
 
 func tail(s string, n int) string {
